@@ -6,14 +6,14 @@ CHECKS = {
  "C03": dict(
    technique="property-based testing (proptest): round trip, order-independence and fixed-point laws against an independent plain mapping model",
    text="Generated-input exploration: tens of thousands of generated mapping sets (2-4 namespaces) are written by quill, re-read and compared with the generating model (ground truth), across insertion orders and harness-written line orders; holds on everything explored, no exhaustiveness claimed.",
-   note="Trusted: the harness model/conversion (from_quill fails on mis-keyed entries), proptest. Assumes names valid for the duke newtypes without TAB/LF/CR; top-level javadoc unused.",
+   note="Trusted: the harness model/conversion (from_quill fails on mis-keyed entries), proptest. Assumes names valid for the duke newtypes without TAB/LF/CR. The comment of the set itself (Mappings::javadoc) takes part in every round trip since the sixth seeded round.",
    ref="DESIGN.md §4 C03"),
 }
 
 CHECKS.update({
  "C04": dict(
    technique="property-based testing (proptest): reference apply model (exact result or refusal), diff/apply inverse law directly and through .tinydiff text, exhaustive 4x3 action table",
-   text="Generated-input exploration: generated diffs (every action x absent/unnamed/matching/mismatching target at all five levels, 2- and 3-namespace targets) are applied by quill and by a reference model written from the statement; generated pairs (A,B) check apply(diff(A,B),A)==B directly and through harness-written .tinydiff text; the 12-cell option table is enumerated. Holds on everything explored.",
+   text="Generated-input exploration: generated diffs (every action x absent/unnamed/matching/mismatching target at all five levels, 2- and 3-namespace targets) are applied by quill and by a reference model written from the statement; generated pairs (A,B) check apply(diff(A,B),A)==B directly and through harness-written .tinydiff text; the 12-cell option table is enumerated; the comment of the set itself and the name of the target namespace are diffed / edited like every other value (matching, mismatching and colliding stated values). Holds on everything explored.",
    note="Trusted: reference apply/diff in the harness, harness tinydiff writer. Assumes target namespace index >=1, parameters without source names and non-empty comments for the inverse law (inexpressible in a diff). Unspecified nodes (None on absent target, children below a removal) accept either outcome.",
    ref="DESIGN.md §4 C04"),
  "C08": dict(
@@ -41,7 +41,7 @@ CHECKS.update({
 CHECKS.update({
  "C06": dict(
    technique="property-based testing (proptest): reference remapper over generated inheritance DAGs, descriptor shape/segment oracle, X->Y->X round trip",
-   text="Generated-input exploration: remappers built by quill from generated sets (2-4 namespaces, every from/to pair) are queried for classes, field/method/return/array descriptors and members over generated inheritance graphs (unmapped intermediate owners, diamonds, shadowing) and compared with a reference remapper written from the statement; round trip on injective names. Holds on everything explored.",
+   text="Generated-input exploration: remappers built by quill from generated sets (2-4 namespaces, every from/to pair) are queried for classes, field/method/return/array descriptors and members over generated inheritance graphs (unmapped intermediate owners, diamonds, shadowing) and compared with a reference remapper written from the statement; inheritance chains of up to 1000 classes; JarSuperProv::remap must give the graph translated in place, and every member answer is asked back through it (X->Y->X). Holds on everything explored.",
    note="Trusted: harness reference remapper. Acyclic inheritance, class names injective per namespace, one member per (name,descriptor) and class; where depth-first order and nearest-by-depth disagree either answer is accepted.",
    ref="DESIGN.md §4 C06"),
  "C12": dict(
@@ -70,7 +70,7 @@ CHECKS.update({
 CHECKS.update({
  "C20": dict(
    technique="property-based testing (proptest): byte round trip of encoder-produced class files, value round trip of directly generated raw values, independent JVMS layout walker over the written bytes, differential cross-reading by the strict decoder and duke",
-   text="Generated-input exploration: well-formed class files from the harness encoder (all encodings, every attribute kind the crate models) must satisfy write(read(b)) == b and length() == |b|; raw ClassFile values generated directly must satisfy |to_bytes()| == length(), read(write(v)) == v, and their written bytes must be consumed exactly by an independent layout walker using JVMS count widths and attribute_length; re-written files are cross-read by the strict decoder and duke. Holds on everything explored apart from the listed known finding (pools with long/double).",
+   text="Generated-input exploration: well-formed class files from the harness encoder (all encodings, every attribute kind the crate models) must satisfy write(read(b)) == b and length() == |b|; raw ClassFile values generated directly must satisfy |to_bytes()| == length(), read(write(v)) == v, and their written bytes must be consumed exactly by an independent layout walker using JVMS count widths and attribute_length; re-written files are cross-read by the strict decoder and duke; stack map frames (kind, offset_delta, counts, verification types), constant pool tags and element value tags of the raw value are compared by meaning with what the independent walker reads from the bytes. Holds on everything explored apart from the listed known finding (pools with long/double).",
    note="Trusted: harness encoder/decoder and the layout walker. While finding C20-long-double-pool-slots is open, cases whose pool holds a Long/Double are counted and excluded (3/4 of the cases are generated without them).",
    ref="DESIGN.md §4 C20"),
 })
@@ -103,8 +103,8 @@ CHECKS.update({
 CHECKS.update({
  "C07": dict(
    technique="property-based testing (proptest): reference renamer over an independent class model applying the remapper's own answers at ~50 JVMS position kinds; jar-level predicates through the zip layer; strict decoder for well-formedness",
-   text="Generated-input exploration: jars of generated classes with manifest, directory and resource entries (given as bytes, parsed trees or a zip archive) are remapped by dukebox with quill remappers built from mapping sets generated over the names the classes use (members declared in super types inside the jar); a reference renamer written from JVMS applies the remapper's own answers to each input class and must equal both the remapped tree and the class re-read from the written jar; entry names, non-class bytes and structural validity are checked on the reopened jar. Holds on everything explored apart from the listed known findings (module data and record components dropped, frames lost when written).",
-   note="Trusted: harness model/projection/renamer, strict decoder. Not compared: generic signatures, simple inner names, annotation element names, variable/parameter names, indy/condy names (the remapper gives no answer for them); unknown attributes are not generated.",
+   text="Generated-input exploration: jars of generated classes with manifest, directory and resource entries (given as bytes, parsed trees or a zip archive) are remapped by dukebox with quill remappers built from mapping sets generated over the names the classes use (members declared in super types inside the jar); a reference renamer written from JVMS applies the remapper's own answers to each input class and must equal both the remapped tree and the class re-read from the written jar; entry names, non-class bytes and structural validity are checked on the reopened jar; the remapper's answers themselves are cross-checked against an independent reference remapper over the mapping model and the jar's inheritance (jars with inheritance chains of up to 400 classes); generic signatures and simple inner names must be unchanged or carry the remapper's class names. Holds on everything explored apart from the listed known findings (module data and record components dropped, frames lost when written).",
+   note="Trusted: harness model/projection/renamer, strict decoder. Not compared: annotation element names, variable/parameter names, indy/condy names (the remapper gives no answer for them). Generic signatures and simple inner names: original or renamed text accepted, nothing else. Unknown attributes must come out byte-identical.",
    ref="DESIGN.md §4 C07"),
 })
 
